@@ -16,7 +16,7 @@
    or references.  `frozen` flags and `itercount` are fields of exactly the
    kinds that have them in the code.  A reference to a location outside the
    heap is treated like an opaque host value (no children, nothing to freeze). *)
-From Coq Require Import List Arith Bool ZArith Lia Relations.
+From Coq Require Import List Arith Bool ZArith Relations.
 Import ListNotations.
 
 Definition loc := nat.
